@@ -679,7 +679,7 @@ class Impl(object):
         if i in self.kidof:
             return ("comp", self.kidof[i])
         if i in self.gidof:
-            return ("glyph", self.gidof[i])
+            return ("glyph", obj.name)
         if obj is self.groups:
             return ("groups",)
         return ("other", 0)
@@ -705,7 +705,7 @@ class Impl(object):
         res = [(("groups",), self.groups)]
         for name in self.glyph_names():
             g = self.layer[name]
-            res.append((("glyph", self.gidof[id(g)]), g))
+            res.append((("glyph", name), g))
             for c in g:
                 res.append((("contour", self.cidof[id(c)]), c))
             for k in g.components:
@@ -849,7 +849,7 @@ class Impl(object):
         if key[0] == "comp":
             return self.kobj.get(key[1])
         if key[0] == "glyph":
-            return self.gobj.get(key[1])
+            return self.layer[key[1]] if key[1] in self.layer else None
         if key[0] == "groups":
             return self.groups
         return None
@@ -910,7 +910,7 @@ class Impl(object):
 
     def diff_prims(self, g, before):
         """primitives that turn the child lists `before` of glyph g into the current ones"""
-        gid = self.gidof[id(g)]
+        gid = g.name
         prims = []
         bc, bk = before
         nowc, nowk = [id(c) for c in g], [id(k) for k in g.components]
@@ -1005,7 +1005,7 @@ class Impl(object):
             self.keep.append(g)
             self.gobj[gid] = g
             self.gidof[id(g)] = gid
-            return [[Atom("newGlyph"), op[1], gid]], [OK], True
+            return [[Atom("newGlyph"), op[1]]], [OK], True
         if k == "delGlyph":
             if op[1] not in L:
                 return None
@@ -1024,7 +1024,7 @@ class Impl(object):
                 return None
             g = L[op[1]]
             g.name = op[2]
-            return [[Atom("rename"), self.gidof[id(g)], op[2]]], [OK], True
+            return [[Atom("rename"), op[1], op[2]]], [OK], True
         # ------------------------------------------------------------------ contours in / out
         if k in ("pen", "instc"):
             g = self.res_glyph(op[1])
@@ -1063,7 +1063,7 @@ class Impl(object):
             idx = op[2] % (len(g) + 1)
             g.insertContour(idx, c)
             self.looseC.remove(cid)
-            return [[Atom("insContour"), self.gidof[id(g)], cid, idx]], [OK], True
+            return [[Atom("insContour"), g.name, cid, idx]], [OK], True
         if k == "remc":
             c = self.res_contour(op[1])
             if c is None or c.glyph is None:
@@ -1072,7 +1072,7 @@ class Impl(object):
             g.removeContour(c)
             cid = self.cidof[id(c)]
             self.looseC.append(cid)
-            return [[Atom("remContour"), self.gidof[id(g)], cid]], [OK], True
+            return [[Atom("remContour"), g.name, cid]], [OK], True
         # ------------------------------------------------------------------ components in / out
         if k == "instk":
             g = self.res_glyph(op[1])
@@ -1108,7 +1108,7 @@ class Impl(object):
             idx = op[2] % (len(g.components) + 1)
             g.insertComponent(idx, comp)
             self.looseK.remove(kid)
-            return [[Atom("insComp"), self.gidof[id(g)], kid, idx]], [OK], True
+            return [[Atom("insComp"), g.name, kid, idx]], [OK], True
         if k == "remk":
             comp = self.res_comp(op[1])
             if comp is None or comp.glyph is None:
@@ -1117,7 +1117,7 @@ class Impl(object):
             g.removeComponent(comp)
             kid = self.kidof[id(comp)]
             self.looseK.append(kid)
-            return [[Atom("remComp"), self.gidof[id(g)], kid]], [OK], True
+            return [[Atom("remComp"), g.name, kid]], [OK], True
         if k == "c":
             c = self.res_contour(op[1])
             if c is None:
@@ -1202,7 +1202,7 @@ class Impl(object):
         n = len(c)
 
         def cm(m, cell="pts"):
-            return [Atom("cmut"), cid, m, Atom(cell)]
+            return [Atom("cmut"), cid, m]
         self.bump("c." + meth)
         try:
             if meth in ("appendPoint", "addPoint"):
@@ -1336,7 +1336,7 @@ class Impl(object):
         self.bump("k." + meth)
 
         def km(m, cell="pts"):
-            return [Atom("kmut"), kid, m, Atom(cell)]
+            return [Atom("kmut"), kid, m]
         try:
             if meth == "baseGlyph":
                 new = args[0]
@@ -1387,7 +1387,7 @@ class Impl(object):
 
     # ---- glyph mutators -----------------------------------------------------------------------
     def do_glyph(self, g, meth, args):
-        gid = self.gidof[id(g)]
+        gid = g.name
         self.bump("g." + meth)
 
         def gm(m):
@@ -1408,7 +1408,7 @@ class Impl(object):
                 prims.append([Atom("cmove"), self.cidof[id(c)], dx, dy])
             for k in g.components:
                 if (dx, dy) != (0, 0):
-                    prims.append([Atom("kmut"), self.kidof[id(k)], "move", Atom("pts")])
+                    prims.append([Atom("kmut"), self.kidof[id(k)], "move"])
             g.move((dx, dy))
             return prims, [OK] * len(prims), True
         before = self.snap(g)
